@@ -153,7 +153,11 @@ class World:
             if k == "openMint":
                 vk = VK(op["vk"]) if op.get("vk") is not None else None
                 pos = PI(*op["pos"]) if op.get("pos") is not None else None
-                r = self.sq.open_deposit_mint(op["deposit"], op["mint"], vk, pos)
+                if op.get("byRate") is not None:
+                    # the convenience helper: mint amount from a collateral rate, then the same transaction
+                    r = self.sq.open_deposit_mint_by_collat_rate(op["deposit"], op["byRate"], vk, pos)
+                else:
+                    r = self.sq.open_deposit_mint(op["deposit"], op["mint"], vk, pos)
                 out = [D(r[0].id), D(r[1])]
             elif k == "deposit":
                 self.sq.deposit(VK(op["vk"]), op["eth"])
@@ -363,7 +367,7 @@ class Spec:
 # -------------------------------------------------------------------------------------------- step runner
 class Obs:
     """everything observed around one operation of the real code"""
-    __slots__ = ("before", "env", "envj", "op", "argc", "err", "msg", "out", "actions", "after", "tw", "to", "nf", "weth", "osqth")
+    __slots__ = ("before", "env", "envj", "op", "argc", "err", "msg", "out", "actions", "after", "tw", "to", "nf", "weth", "osqth", "n0", "rate_ok")
 
     def replay(self):
         return {"spec": self.before, "env": {k: v for k, v in self.env.items()}, "op": self.op}
@@ -378,11 +382,23 @@ def observe(world, op, argc=""):
     o.tw = world.sq.get_twap_price(world.weth)
     o.to = world.sq.get_twap_price(world.osqth)
     o.nf, o.weth, o.osqth = world.cur()
+    if op.get("k") == "openMint" and op.get("byRate") is not None:
+        # `collateral_amount_to_osqth` is pure: its answer is the mint amount the model is given
+        op = dict(op, mint=world.sq.collateral_amount_to_osqth(op["deposit"], op["byRate"]))
+        want = L_by_rate(op["deposit"], op["byRate"], o.nf, o.tw)
+        o.rate_ok = want is None or abs(F(op["mint"]) - want) <= abs(want) * F(1, 10 ** 30)
     o.op, o.argc = op, argc
     o.err, o.out, o.actions = world.apply_op(op)
     o.msg = str(getattr(world, "last_exc", "")) if o.err else ""
     o.after = world.dump_state()
     return o
+
+
+def L_by_rate(deposit, rate, nf, tw):
+    """deposit / rate × 10000 / norm_factor / twap(ETH), exact"""
+    if F(rate) == 0 or F(nf) == 0 or F(tw) == 0:
+        return None
+    return F(deposit) / F(rate) * 10000 / F(nf) / F(tw)
 
 
 def snapshot_env(world):
